@@ -164,6 +164,8 @@ func runC08(c *Check) {
 
 	// O3 context table
 	c08Context(c, P, r)
+	// consumed messages get their context in the Router's subscriber decorator: it must hand every message over
+	c07Decorator(c, P+".S")
 	// O5: exactly this handler's middlewares wrap its function
 	c09All(c, P, r)
 	// O4
